@@ -19,8 +19,9 @@ Modelled, not verified: Go channels/select (a closed `chanClose` or a tick are
 "enabled labels", select picks any), `sync.Mutex` gives mutual exclusion,
 `atomic` status accesses are single steps, `time.Ticker` delivers a tick every
 10 s of the clock, `conn.Write` / `GetNextMessage` results are chosen by the
-environment (label parameters), fewer than 9999 queued writes and fewer than
-999 queued owner tasks (no blocking send).
+environment (label parameters); the heartbeat's send on a full `chSend` (9999
+slots) parks it (`HPc.blk`); application pushes never find the queue full and
+fewer than 999 owner tasks are queued (no other blocking send).
 -/
 namespace Cell2v.Session
 
@@ -75,10 +76,14 @@ inductive RPc
 inductive WPc | sel | inw | dfr | done
   deriving DecidableEq, Repr
 
-inductive HPc | sel | chk | snd | done
+/-- `blk`: parked in `s.chSend <- p` (queue full) -/
+inductive HPc | sel | chk | snd | blk | done
   deriving DecidableEq, Repr
 
 def hbMs : Nat := 10000
+
+/-- capacity of `chSend` -/
+def sendCap : Nat := 9999
 
 structure St where
   status : Status
@@ -105,7 +110,7 @@ structure St where
 inductive Lbl
   | rdTop | rdTake (it : Item) | rdRet | rdPkt (wok : Bool) | rdErrRet | rdEnd
   | wrTake | wrExit | wrRet (ok : Bool) | wrEnd
-  | hbTick | hbChk | hbSnd | hbExit
+  | hbTick | tickDrop | hbChk | hbSnd | hbUnblk | hbExit
   | kick | push | advance (dt : Nat)
   | cLock (t : Tid) | cCheck (t : Tid) | cFin (t : Tid)
   deriving DecidableEq, Repr
@@ -177,6 +182,9 @@ def fire (fx : Bool) (s : St) : Lbl → Option St
   | .wrEnd => if s.wr = .dfr ∧ s.wrC = .out then some { s with wr := .done } else none
   -- heartbeat --------------------------------------------------------------
   | .hbTick => if s.hb = .sel ∧ s.hbC = .out ∧ s.tickAt ≤ s.now then some { s with hb := .chk, tickAt := s.tickAt + hbMs } else none
+  | .tickDrop =>
+    -- the ticker's one-slot channel already holds an unconsumed tick: the next one is dropped
+    if s.hb ≠ .sel ∧ s.tickAt + hbMs ≤ s.now then some { s with tickAt := s.tickAt + hbMs } else none
   | .hbChk =>
     if s.hb = .chk ∧ s.hbC = .out then
       (if s.status = .working ∧ ¬ (s.now < s.lastHb + 2 * hbMs) then some { s with hb := .snd, hbC := .want }
@@ -184,8 +192,15 @@ def fire (fx : Bool) (s : St) : Lbl → Option St
     else none
   | .hbSnd =>
     if s.hb = .snd ∧ s.hbC = .out then
-      (if s.status = .working ∧ s.closed = false then some { s with hb := .sel, sendq := s.sendq + 1 }
+      (if s.status = .working ∧ s.closed = false then
+         (if s.sendq < sendCap then some { s with hb := .sel, sendq := s.sendq + 1 }
+          else some { s with hb := .blk })   -- queue full: the heartbeat goroutine parks in the send
        else some { s with hb := .sel })     -- not Working: nothing; chSend closed: panic recovered in pushToSend
+    else none
+  | .hbUnblk =>
+    -- a parked sender is released by room in the queue, or by Close closing chSend (panic, recovered in pushToSend)
+    if s.hb = .blk ∧ s.hbC = .out ∧ s.closed = true then some { s with hb := .sel }
+    else if s.hb = .blk ∧ s.hbC = .out ∧ s.sendq < sendCap then some { s with hb := .sel, sendq := s.sendq + 1 }
     else none
   | .hbExit => if s.hb = .sel ∧ s.hbC = .out ∧ s.closed = true then some { s with hb := .done } else none
   -- environment ------------------------------------------------------------
@@ -272,7 +287,7 @@ environment's.) -/
 def internalLbls : List Lbl :=
   [.rdTop, .rdRet, .rdPkt true, .rdPkt false, .rdErrRet, .rdEnd,
    .wrTake, .wrExit, .wrRet true, .wrRet false, .wrEnd,
-   .hbTick, .hbChk, .hbSnd, .hbExit,
+   .hbTick, .hbChk, .hbSnd, .hbUnblk, .hbExit,
    .cLock .rd, .cLock .wr, .cLock .hb, .cLock .kk,
    .cCheck .rd, .cCheck .wr, .cCheck .hb, .cCheck .kk,
    .cFin .rd, .cFin .wr, .cFin .hb, .cFin .kk]
